@@ -22,6 +22,8 @@ import vlib
 
 GAUSS = ["kf", "ukfa", "ukfg", "sukf"]
 KNOWN_GPF_KEY = "gpf-partial-update:wrapped-correction-fails-likelihood-valid"
+BOOT_MASSIGN_KEY = "bootstrap-move-assign:models-not-handed-over"            # fixed by 186c63d
+GPF_MASSIGN_KEY = "gpf-move-assign:likelihood-model-not-handed-over"          # fixed by 2d4bf06
 GPF_INPLACE_KEY = "gpf-in-place:predicted-set-not-restored"      # fixed by 5d39dcb; fires again if that is reverted
 METHODS = ["fz", "me", "pr", "in", "no", "li"]
 
@@ -92,7 +94,7 @@ def epoch_failures(cls, T):
     (unavailable quantities inside the wrapped Gaussian correction only, unavailable quantities that must give `pred`)."""
     if cls in ("kf", "glik", "bootg"):
         return [], sorted(T & {"me", "pr", "in", "no"})
-    if cls in ("ukfa", "ukfg", "sukf"):
+    if cls in ("ukfa", "ukfg", "ukfgo", "sukf"):
         return [], sorted(T & {"me", "pr", "in"})
     if cls == "boots":
         return [], sorted(T & {"li"})
@@ -105,6 +107,19 @@ def epoch_failures(cls, T):
 
 
 def check_single(line, hout, dout, stats, notes):
+    """robust wrapper: whatever a mutated implementation prints becomes a violation with the input as replay"""
+    cls = line.split()[1]
+    try:
+        bad = check_single_(line, hout, dout, stats, notes)
+    except Exception as e:      # malformed harness output (unexpected shape / tokens)
+        return [("%s:malformed-output" % cls, "the harness output could not be interpreted (%s): %s" % (type(e).__name__, hout[:120]))]
+    if "massign=1" in line.split()[13:]:
+        key = BOOT_MASSIGN_KEY if cls.startswith("boot") else GPF_MASSIGN_KEY
+        bad = [(key if ("belief-touched" in k or "not-reached" in k) else k, "handed over by move assignment: " + w) for (k, w) in bad]
+    return bad
+
+
+def check_single_(line, hout, dout, stats, notes):
     t = line.split()
     cls, m, sub = t[1], int(t[4]), int(t[6])
     bad = []
@@ -137,6 +152,12 @@ def check_single(line, hout, dout, stats, notes):
         stats["observations"] = stats.get("observations", 0) + 1
         if lab.startswith("ambiguous"):
             stats["uninformative"] = stats.get("uninformative", 0) + 1
+        flags = line.split()[13:]
+        if ("massign=1" in flags or "move=1" in flags) and calls == "-" and cls != "glik":
+            bad.append(("%s:models-not-reached" % cls, where + "the handed-over correction made no call to the configured measurement / likelihood model"))
+        for fl in ("deco=1", "move=1", "massign=1", "degen=1"):
+            if fl in flags:
+                stats[fl] = stats.get(fl, 0) + 1
         if same not in ("same", "alias"):
             bad.append(("%s:input-modified" % cls, where + "the predicted belief passed in was modified"))
         if cls == "glik":
@@ -180,6 +201,13 @@ def check_single(line, hout, dout, stats, notes):
 
 
 def check_sis(line, hout, dout, stats, notes):
+    try:
+        return check_sis_(line, hout, dout, stats, notes)
+    except Exception as e:
+        return [("%s:malformed-output" % line.split()[1], "the harness output could not be interpreted (%s): %s" % (type(e).__name__, hout[:120]))]
+
+
+def check_sis_(line, hout, dout, stats, notes):
     t = line.split()
     cls = t[1]
     bad = []
@@ -233,8 +261,12 @@ def all_scripts(spec):
 
 def sizes(r, need_multi):
     n, m, k = r.randint(1, 4), r.randint(1, 3), r.randint(1, 4)
+    if need_multi == "scalar":          # special sizes: scalar measurement, one component / particle
+        return r.randint(1, 2), 1, 1
     if need_multi:
         k, m = max(k, 2), max(m, 2)
+    elif r.random() < 0.15:
+        k = r.choice([5, 6, 8])         # beyond the usual bound
     return n, m, k
 
 
@@ -252,8 +284,15 @@ def exhaustive_cases(g, variants):
             if v == 0 and cls != "glik":
                 # the same script on an in-place call correct(b, b)
                 cases.append((mkline(cls, r.randint(0, 99999), n, m, k, sb, sc) + " alias=1", {"style": "exhaustive-in-place", "cls": cls}))
+            if v == 0:
+                # ... behind a forwarding decorator, on a move-constructed object, and with scalar sizes
+                cases.append((mkline(cls, r.randint(0, 99999), n, m, k, sb, sc) + " deco=1" + ("" if cls == "glik" else " move=1"), {"style": "exhaustive-handover", "cls": cls}))
+                cases.append((mkline(cls, r.randint(0, 99999), n, m, max(k, 3), sb, sc) + " degen=1", {"style": "exhaustive-degenerate-belief", "cls": cls}))
+                if msub is None:
+                    n1, m1, k1 = sizes(r, "scalar")
+                    cases.append((mkline(cls, r.randint(0, 99999), n1, m1, k1, 1, sc), {"style": "exhaustive-scalar", "cls": cls}))
 
-    for cls in ("kf", "ukfa", "ukfg", "glik", "bootg"):
+    for cls in ("kf", "ukfa", "ukfg", "ukfgo", "glik", "bootg"):
         for sc in all_scripts({"me": 1, "pr": 1, "in": 1, "no": 1}):
             add(cls, sc)
     for msub in ((2, 1), (2, 2), (3, 2), (4, 2), (3, 3), (1, 1), (5, 3)):
@@ -294,7 +333,7 @@ def exhaustive_cases(g, variants):
 
 def random_cases(g, count):
     r = g.r
-    classes = ["kf", "ukfa", "ukfg", "sukf", "glik", "bootg", "boots"] + ["gpf-%s-%s" % (w, l) for w in GAUSS for l in "gs"] + ["sis-bootg", "sis-boots"]
+    classes = ["kf", "ukfa", "ukfg", "ukfgo", "sukf", "glik", "bootg", "boots"] + ["gpf-%s-%s" % (w, l) for w in GAUSS for l in "gs"] + ["sis-bootg", "sis-boots"]
     cases = []
     for _ in range(count):
         cls = r.choice(classes)
@@ -322,6 +361,12 @@ def random_cases(g, count):
             ln += " reps=%d" % r.randint(2, 5)       # successive correct() calls on the same object
         if cls != "glik" and not cls.startswith("sis-") and r.random() < 0.25:
             ln += " alias=1"
+        if not cls.startswith("sis-") and r.random() < 0.2:
+            ln += " deco=1"
+        if not cls.startswith("sis-") and r.random() < 0.2:
+            ln += " degen=1"
+        if cls != "glik" and not cls.startswith("sis-") and r.random() < 0.2:
+            ln += " move=1"
         cases.append((ln, {"style": "random", "cls": cls}))
     return cases
 
@@ -335,7 +380,7 @@ def epoch_cases(g, variants):
     failure -> success -> failure and success -> failure -> success -> failure for all pairs of single failures."""
     r = g.r
     cases = []
-    classes = ["kf", "ukfa", "ukfg", "sukf", "glik", "bootg", "boots"] + ["gpf-%s-%s" % (w, l) for w in GAUSS for l in "gs"]
+    classes = ["kf", "ukfa", "ukfg", "ukfgo", "sukf", "glik", "bootg", "boots"] + ["gpf-%s-%s" % (w, l) for w in GAUSS for l in "gs"]
 
     def ep(seq):
         return "ep=" + "/".join(("".join(sorted(e)) or "-") for e in seq)
@@ -358,6 +403,9 @@ def epoch_cases(g, variants):
                 sb = r.choice([d for d in (1, 2, 3) if m % d == 0]) if "sukf" in cls else 1
                 al = " alias=1" if (v == 1 and cls != "glik") else ""
                 cases.append((mkline(cls, r.randint(0, 99999), n, m, k, sb, EMPTY) + " " + ep(seq) + al, {"style": "epoch-sequence" + ("-in-place" if al else ""), "cls": cls}))
+                if v == 0 and (cls.startswith("boot") or cls.startswith("gpf-")) and len(seq) <= 3:
+                    # the same sequence on an object handed over by move assignment (target built around other models)
+                    cases.append((mkline(cls, r.randint(0, 99999), n, m, k, sb, EMPTY) + " massign=1 " + ep(seq), {"style": "epoch-sequence-move-assigned", "cls": cls}))
     for cls, meths in (("sis-bootg", ["me", "pr", "in", "no"]), ("sis-boots", ["li"])):
         seqs = [[set(), {"fz"}, set()], [{"fz"}, set(), {"fz"}], [{"fz"}, {"fz"}, set()], [set(), set(), {"fz"}]]
         for a in meths:
@@ -462,6 +510,8 @@ def run(ctx):
         "call_logs_identical_to_model": stats.get("logs_identical", 0),
         "state_based_calls_checked": stats.get("epoch_calls", 0),
         "in_place_calls_checked": stats.get("in_place_calls", 0),
+        "calls_behind_forwarding_decorator": stats.get("deco=1", 0), "calls_on_move_constructed_objects": stats.get("move=1", 0),
+        "calls_on_move_assigned_objects": stats.get("massign=1", 0), "calls_on_degenerate_beliefs": stats.get("degen=1", 0),
         "model_branch_hits": dict(sorted(stats.get("branches", {}).items())),
         "property_failures_on_impl": len(prop_bad),
         "property_failures_by_key": {k: sum(1 for x in prop_bad if x[0] == k) for k in sorted(set(x[0] for x in prop_bad))},
